@@ -4,7 +4,7 @@
    the occupancy split, the serial wrap, and "no made-up value".  The refinement read_pdb (render recs) = denote recs is
    established by correspondence only (see the level note). *)
 From Coq Require Import List Ascii String ZArith QArith Bool Lia.
-From PV Require Import Base.Sx Base.Text Base.Float Base.Group Spec.Hier Spec.PdbSpec Model.AddAtom Model.PdbLex Model.PdbParse Proofs.Decimal Proofs.C01just.
+From PV Require Import Base.Sx Base.Text Base.Float Base.Group Spec.Hier Spec.PdbSpec Model.AddAtom Model.PdbLex Model.PdbParse Proofs.Decimal Proofs.C01just Proofs.C01line.
 Import ListNotations.
 
 (* 1. inside a model: exactly one chain per chain id, in order of first appearance (and likewise one residue per key, one
@@ -70,6 +70,25 @@ Theorem C01_signed_field_reads_back : forall n, (min_isize <= n <= max_isize)%Z 
   parse_isize (if (n <? 0)%Z then "-"%char :: show_Zpos (- n) else show_Zpos n) = Some n.
 Proof. exact isize_reads_back. Qed.
 
+(* 8. a coordinate line: 21 fields of the column widths 6 5 1 4 1 3 1 1 4 1 3 8 8 8 6 6 6 4 2 1 1, each value anywhere inside its
+      field (see 6.), is lexed to exactly the values of its fields, without a diagnostic *)
+Theorem C01_atom_line_read_back : forall ln het (segs : list text)
+        serial name resname resnum x y z occ b segment element (alt chain ins c78 c79 : ascii),
+  map (@List.length ascii) segs = atom_widths ->
+  parse_usize (trim (nth 1 segs [])) = Some serial ->
+  trim (nth 3 segs []) = name -> nth 4 segs [] = [alt] ->
+  trim (nth 5 segs []) = resname -> nth 7 segs [] = [chain] ->
+  parse_isize (trim (nth 8 segs [])) = Some resnum -> nth 9 segs [] = [ins] ->
+  parse_f64_field (trim (nth 11 segs [])) = Some x -> parse_f64_field (trim (nth 12 segs [])) = Some y ->
+  parse_f64_field (trim (nth 13 segs [])) = Some z -> parse_f64_field (trim (nth 14 segs [])) = Some occ ->
+  parse_f64_field (trim (nth 15 segs [])) = Some b ->
+  trim (nth 17 segs []) = segment -> trim (nth 18 segs []) = element ->
+  nth 19 segs [] = [c78] -> nth 20 segs [] = [c79] -> c78 = " "%char -> c79 = " "%char ->
+  lex_atom ln (List.concat segs) het =
+  (LAtom het {| ab_serial := serial; ab_name := name; ab_alt := opt_char alt; ab_resname := resname; ab_chain := [chain];
+                ab_resnum := resnum; ab_icode := opt_char ins; ab_element := element; ab_charge := 0 |} x y z occ b, []).
+Proof. exact atom_line_read_back. Qed.
+
 Print Assumptions C01_one_chain_per_id.
 Print Assumptions C01_occupancy_split_adds_up.
 Print Assumptions C01_wrap_continues.
@@ -78,3 +97,4 @@ Print Assumptions C01_failing_diagnostic_rejects.
 Print Assumptions C01_field_justification.
 Print Assumptions C01_unsigned_field_reads_back.
 Print Assumptions C01_signed_field_reads_back.
+Print Assumptions C01_atom_line_read_back.
